@@ -243,7 +243,8 @@ ENGINES["map_mv"]["configs"]["quick"] += [mapcfg("map_mv_s_samectxr.cfg", 1, 2),
 # H9 seeds: validate_op on identifiers whose outer markers are other actors' dots, out-of-causal-order deliveries
 ENGINES["list"]["configs"]["quick"] += [{"cfg": "list_s_foreign.cfg", "module": "MC_List.tla", "flags": ["--vop-only"], "invariants": ["TypeOK", "ValidateOpOK"]}]
 # H11: behaviours that CONTINUE after a step that is a no-op in the model (merge of a subsumed state): the small scenario
-# configs orswot_s_samectx / samectxr / samectx4m and map_mv_s_samectx / samectxr / cross use VIEW noopView
+# configs orswot_s_samectx / samectxr / samectx4m and map_mv_s_samectx / samectxr / cross use VIEW noopView, and so do the
+# 2-replica configs orswot_q2, mvreg_q2, glist_q2, merkle_qh, simple_gcounter (duplicates and stale merges, then more steps)
 ENGINES["map_mv"]["configs"]["quick"] += [mapcfg("map_mv_s_cross.cfg", 1, 1)]   # crossed removes: a merge that must drop a key present on both sides
 # MVReg value clocks over four actors (H3 seeds): siblings that agree at both ends and differ in the middle; four-way merges
 ENGINES["mvreg"]["configs"]["quick"] += [{"cfg": "mvreg_s_seen4.cfg", "module": "MC_MVReg.tla", "flags": ["--persist"],
